@@ -217,3 +217,23 @@ EXTRA7 = {
 for _pid, _x in EXTRA7.items():
     if _pid in CLAIMED:
         CLAIMED[_pid]["text"] += _x
+
+EXTRA8 = {
+ "C02": " Round 8: TSO.Init has no caller on a running node (R3); a translated event's ModRevision is the event's own revision (R4 <- C16-R9); both counters of the oracle are raised by a retried, guarded compare-and-swap (R1; the allocator raise found and fixed 3a563ae); the leader lock discipline C14-R1/R2 as R6.",
+ "C03": " Round 8: scan iterators are created without a record limit and their end is recognised by identity with io.EOF (R9).",
+ "C04": " Round 8: TSO.Init has no caller on a running node (R5).",
+ "C05": " Round 8: the batch form of the cache insert obeys the same order as the single insert (R2); only the leader streams (C18-R2 as R14).",
+ "C06": " Round 8: compaction keeps the version visible at the compaction revision (C07-R2 as R6).",
+ "C08": " Round 8: the point read is reachable only for a request without range end (R2); an error of the compaction record write is returned whatever its class (R7).",
+ "C10": " Round 8: the advertised list always ends with the end of the last partition (R5 <- C13-R9).",
+ "C12": " Round 8: C13-R9's last-end clause into R4.",
+ "C13": " Round 8: the stream is handed out only with its producer started (R2); every path from the partition listing to a worker passes the realignment and the workers index its result (R5); the end of the last partition cannot be skipped (R9).",
+ "C15": " Round 8: every return of the lock's Create / Update after the committed write is preceded by an oracle read on that path (R2).",
+ "C16": " Round 8: event ModRevision (R9); a watch from the committed revision on an empty cache (C05-R1/R10 as R10).",
+ "C18": " Round 8: the committed counter is raised by a retried compare-and-swap (C02-R1 as R8).",
+ "C19": " Round 8: no acquisition of a lock the goroutine already holds, read locks included (R5); WaitGroup.Add precedes the go statement (R8); the key of a singleflight whose function writes shared state is constant (R4).",
+ "C20": " Round 8: metric names built from constructor-filled struct fields are enumerated and validated (R1); recursive read lock (R7 <- C19-R5).",
+}
+for _pid, _x in EXTRA8.items():
+    if _pid in CLAIMED:
+        CLAIMED[_pid]["text"] += _x
